@@ -820,6 +820,21 @@ def run_reader(case) -> CaseResult:
                         model.check(sub, task.result())
                     else:
                         task.cancel()
+
+                        if len(op) > 3 and op[3]:
+                            # more data reaches the session before the
+                            # cancellation reaches the reader (a deadline
+                            # expiring in the loop iteration in which the
+                            # socket became readable)
+                            moved = 0
+
+                            for side in ('s', 'c'):
+                                moved += h.deliver(
+                                    side, next(chunker) if chunker else None)
+
+                            if moved:
+                                labels.add('cancelled:data-arrives-first')
+
                         h.settle()
                         labels.add('cancelled')
                         if kind != 'untilc':
@@ -1006,9 +1021,9 @@ def op_strategy(win: int, pkt: int, seps, cancel: bool):
         'untilc': st.tuples(st.just('untilc'), sepof,
                             st.integers(0, 5)).map(list),
         'exactc': st.tuples(st.just('exactc'), nst,
-                            st.integers(0, 5)).map(list),
+                            st.integers(0, 5), st.booleans()).map(list),
         'readallc': st.tuples(st.just('readallc'), st.just(0),
-                              st.integers(0, 5)).map(list)}
+                              st.integers(0, 5), st.booleans()).map(list)}
     kinds = ['read', 'read-small', 'read-small', 'exact', 'exact-small',
              'exactrem', 'line', 'line', 'line', 'until', 'until', 'until',
              'until', 'until', 'until', 'readall', 'pump', 'pumpall']
@@ -1067,6 +1082,19 @@ def reader_strategy(tier: str):
         chunks = draw(st.one_of(st.just([]), st.just([1]),
                                 st.lists(st.integers(1, 400), min_size=1,
                                          max_size=5)))
+
+        if mode == 'seq' and len(out) >= 8 and draw(st.integers(0, 2)) == 0:
+            # the command writes in pieces, one per loop iteration; a read
+            # that wants more than has come so far is given up just as the
+            # next piece arrives
+            piece = max(1, len(out) // 5)
+            script = [x for _ in range(6) for x in (['o', piece],
+                                                    ['yield'])]
+            chunks = []
+            ops = [[draw(pick(['exactc', 'readallc'])),
+                    len(out) - draw(st.integers(0, 1)),
+                    draw(st.integers(1, 4)), True]] + ops[:4]
+
         case = {'enc': enc, 'win': win, 'pkt': pkt, 'out': out, 'err': err,
                 'script': script, 'end': draw(end_strategy()),
                 'ops': ops, 'eops': eops, 'mode': mode,
@@ -2992,7 +3020,8 @@ FAMILIES = [
                              'concurrent', 'chunk-1byte', 'exit-before-data',
                              'op-read', 'op-exact', 'op-line', 'op-until',
                              'final-iter', 'sep-found', 'cancelled:exactc',
-                             'cancelled:readallc']},
+                             'cancelled:readallc',
+                             'cancelled:data-arrives-first']},
            timeout_is_violation=True, case_timeout=120),
     Family('srvreader', run_srvreader, strategy=srvreader_strategy,
            budget={'quick': 220, 'thorough': 4000},
